@@ -847,3 +847,819 @@ def replay_examples(ctx, I, files=None, only=None, budget_s=None):
                                       {"kind": "example-step", "key": key, "file": name, "rule": rname, "before": before_s,
                                        "after": str(after), "detail": detail})
     return stats
+
+
+# =====================================================================================================
+# wire format: Expr <-> s-expression (fields read directly, never through the printer)
+# =====================================================================================================
+def frac_of(v):
+    return v if isinstance(v, Fraction) else Fraction(v)
+
+
+def to_sexp(E, e):
+    """Expr -> sexp (nested lists) for the node kinds of the Lean model, else None."""
+    ty = e.ty
+    if ty == E.VAR:
+        return ["v", sexp.enc(e.name)]
+    if ty == E.CONST:
+        q = frac_of(e.val)
+        return ["c", q.numerator, q.denominator]
+    if ty == E.OP:
+        if len(e.args) == 1:
+            a = to_sexp(E, e.args[0])
+            return None if a is None else ["neg", a]
+        if e.op not in ("+", "-", "*", "/", "^"):
+            return None
+        a, b = to_sexp(E, e.args[0]), to_sexp(E, e.args[1])
+        return None if a is None or b is None else [e.op, a, b]
+    if ty == E.FUN:
+        if len(e.args) == 0:
+            return ["f0", sexp.enc(e.func_name)]
+        if len(e.args) == 1:
+            a = to_sexp(E, e.args[0])
+            return None if a is None else ["f1", sexp.enc(e.func_name), a]
+        return None
+    if ty in (E.INTEGRAL, E.EVAL_AT):
+        lo, hi, b = to_sexp(E, e.lower), to_sexp(E, e.upper), to_sexp(E, e.body)
+        if lo is None or hi is None or b is None:
+            return None
+        return ["int" if ty == E.INTEGRAL else "at", sexp.enc(str(e.var)), lo, hi, b]
+    if ty == E.DERIV:
+        b = to_sexp(E, e.body)
+        return None if b is None else ["d", sexp.enc(str(e.var)), b]
+    return None
+
+
+def canon(x):
+    return sexp.dumps(x)
+
+
+# =====================================================================================================
+# generators
+# =====================================================================================================
+FUNS1 = ["sin", "cos", "tan", "cot", "sec", "csc", "exp", "log", "sqrt", "atan", "asin", "acos", "acot", "abs"]
+
+
+def gen_const(E, rng, small=True):
+    r = rng.random()
+    if r < 0.5:
+        return E.Const(rng.choice([0, 1, 2, 3, 4, 5] if small else [0, 1, 2, 3, 7, 10, 12]))
+    if r < 0.7:
+        return E.Const(-rng.choice([1, 2, 3]))
+    if r < 0.9:
+        return E.Const(Fraction(rng.choice([1, 3, 5]), rng.choice([2, 3, 4])))
+    return E.Const(Fraction(-rng.choice([1, 3]), rng.choice([2, 3])))
+
+
+def gen_expr(E, rng, depth, names=("x", "y", "a"), binders=True, funs=FUNS1, extra_funs=("f",), fold_safe=False):
+    """Random expression over the node kinds of the Lean model.
+
+    fold_safe: avoid shapes the parser folds (Const / Const, unary minus of a positive constant) -- the domain of
+    the print/parse round trip."""
+    def rec(d):
+        if d <= 0 or rng.random() < 0.18:
+            r = rng.random()
+            if r < 0.5:
+                return E.Var(rng.choice(names))
+            if r < 0.9:
+                return gen_const(E, rng)
+            return E.Fun(rng.choice(["pi", "pi", "G"]))
+        r = rng.random()
+        if r < 0.5:
+            op = rng.choice(["+", "-", "*", "*", "/", "^", "^"])
+            a, b = rec(d - 1), rec(d - 1)
+            if fold_safe and op == "/" and a.ty == E.CONST and b.ty == E.CONST:
+                a = E.Var(rng.choice(names))
+            return E.Op(op, a, b)
+        if r < 0.62:
+            a = rec(d - 1)
+            if fold_safe and a.ty == E.CONST and a.val > 0:
+                a = E.Var(rng.choice(names))
+            return E.Op("-", a)
+        if r < 0.9 or not binders:
+            f = rng.choice(list(funs) + list(extra_funs)) if (rng.random() < 0.92 or not extra_funs) else rng.choice(list(extra_funs))
+            return E.Fun(f, rec(d - 1))
+        k = rng.random()
+        t = rng.choice(["t", "u", names[0]])
+        if k < 0.55:
+            return E.Integral(t, rec(d - 2), rec(d - 2), substvar(E, rng, rec(d - 1), names, t))
+        if k < 0.8:
+            return E.EvalAt(t, rec(d - 2), rec(d - 2), substvar(E, rng, rec(d - 1), names, t))
+        return E.Deriv(t, substvar(E, rng, rec(d - 1), names, t))
+    return rec(depth)
+
+
+def substvar(E, rng, e, names, t):
+    """Make the bound variable occur in the body."""
+    if rng.random() < 0.8:
+        try:
+            with quiet():
+                return e.subst(rng.choice(names), E.Var(t))
+        except NotImplementedError:     # Expr.subst does not know Differential
+            return e
+    return e
+
+
+# =====================================================================================================
+# stream: deriv  (correspondence with derivM, numerical oracle on the real deriv)
+# =====================================================================================================
+def run_deriv_impl(I, e, var="x", raw=True):
+    hctx = I.context.Context()
+    try:
+        with quiet():
+            if raw:
+                with I.raw_deriv():
+                    return "ok", I.rules.deriv(var, e, hctx)
+            return "ok", I.rules.deriv(var, e, hctx)
+    except NotImplementedError:
+        return "raises", None
+    except Exception as ex:  # noqa
+        return "error:" + type(ex).__name__, None
+
+
+def deriv_corpus(I):
+    """Hand-written cases aimed at each branch of deriv (and at the two repaired ones)."""
+    P = I.parser.parse_expr
+    strs = ["cot(x^2)", "acot(x)", "acot(2*x+1)", "cot(3*x)", "x^3", "x^y", "a^x", "x^x", "(x+1)^(x*y)", "1/x^2", "3/(x+1)^n",
+            "y/(2^x)", "a/(x^x)", "sqrt(x)", "sqrt(2)", "sqrt(x^2+1)", "sin(x)*cos(x)", "2*x", "x*2", "x/a", "a/x", "x/(x+1)",
+            "x/(x+1)^2", "csc(x)", "sec(2*x)", "tan(x/2)", "log(x^2+1)", "exp(-x^2)", "atan(x/a)", "asin(x/2)", "acos(1-x)",
+            "abs(x)", "f(x)", "pi*x", "G*x", "-x", "x-1", "x^(1/2)", "x^(-1/2)", "x^0", "x^1", "(2*x)^(-3)", "y^2", "y*sin(y)",
+            "INT t:[0,x]. t*x", "INT t:[x,x^2]. sin(t*x)", "INT x:[0,1]. x*y", "x * (INT t:[0,1]. t)", "a*x/(b*x+1)",
+            "exp(x)/x", "log(x)/x^2", "x^2/(1+x^2)", "1/(1+x^2)", "1/sqrt(1-x^2)", "x*exp(a*x)*sin(b*x)"]
+    return [P(s) for s in strs]
+
+
+def deriv_stream(ctx, I, n):
+    E = I.expr
+    rng = ctx.rng("deriv")
+    cases = deriv_corpus(I)
+    for _ in range(n):
+        d = rng.choice([1, 2, 2, 3, 3, 4])
+        cases.append(gen_expr(E, rng, d, names=("x", "x", "y", "n"), binders=(rng.random() < 0.5)))
+    lines, keep = [], []
+    for e in cases:
+        sx = to_sexp(E, e)
+        if sx is None:
+            continue
+        keep.append((e, sx))
+        lines.append(sexp.dumps(["deriv", "x", sx]))
+    out = ctx.lean_driver(EXE, lines)
+    ndis = 0
+    for k, (e, sx) in enumerate(keep):
+        st, d = run_deriv_impl(I, e)
+        ctx.case(("deriv", canon(sx)), nontrivial=(e.ty not in (E.VAR, E.CONST) and "x" in e.get_vars()))
+        ctx.count("deriv:" + st.split(":")[0])
+        if st == "ok":
+            dsx = to_sexp(E, d)
+            impl = "(ok %s)" % canon(dsx) if dsx is not None else "outside-model"
+        else:
+            impl = "raises" if st == "raises" else st
+        if out is not None and impl != "outside-model":
+            if out[k] != impl:
+                ndis += 1
+                ctx.coverage["disagreements_checked"] += 1
+                if ndis <= 3:
+                    ctx.broken("correspondence:c19:deriv", "e=%s impl=%s model=%s" % (e, impl[:300], out[k][:300]))
+        # ---- property oracle on the real (normalising) deriv: numerical derivative
+        deriv_oracle(ctx, I, e, rng)
+    if out is None:
+        ctx.broken("correspondence:c19:driver", "model driver unavailable")
+    ctx.sample({"deriv_input": str(cases[len(deriv_corpus(I))]) if len(cases) > len(deriv_corpus(I)) else ""})
+
+
+def deriv_oracle(ctx, I, e, rng, var="x"):
+    """d/dx by the implementation (with its own normalize) against mpmath.diff at random admissible points."""
+    E = I.expr
+    if var not in e.get_vars():
+        return
+    st, d = run_deriv_impl(I, e, var, raw=False)
+    if st != "ok":
+        ctx.count("deriv-oracle:impl-" + st.split(":")[0])
+        return
+    if has_node(E, d, (E.DERIV,)):
+        ctx.count("deriv-oracle:unevaluated")
+        return
+    names = e.get_vars() | d.get_vars()
+    good = 0
+    for _ in range(6):
+        env = {n: round(rng.uniform(0.15, 1.6) * rng.choice([1, 1, 1, -1]), 3) for n in names}
+        try:
+            num = two_prec(E, E.Deriv(var, e), env, limit_s=4)
+            # the point must be an interior point of the domain: the function is defined on both sides
+            for dx in (-1e-4, 1e-4):
+                env2 = dict(env)
+                env2[var] = env[var] + dx
+                two_prec(E, e, env2, limit_s=2)
+            sym = two_prec(E, d, env, limit_s=4)
+        except Unrel:
+            continue
+        good += 1
+        if not close(num, sym, 1e-6):
+            # confirm with a symmetric difference quotient at a second step size before reporting
+            try:
+                h = 1e-5
+                q = (two_prec(E, e, {**env, var: env[var] + h}) - two_prec(E, e, {**env, var: env[var] - h})) / (2 * h)
+            except Unrel:
+                continue
+            if close(q, num, 1e-4) and not close(q, sym, 1e-4):
+                ctx.violation("deriv-value:" + str(e), "deriv(%s) = %s has value %s at %s but the derivative is %s" % (e, d, sym, env, num),
+                              {"kind": "deriv", "expr": str(e), "var": var, "env": env, "symbolic": str(sym), "numeric": str(num)})
+                return
+        if good >= 2:
+            break
+    ctx.count("deriv-oracle:checked" if good else "deriv-oracle:no-admissible-point")
+
+
+def has_node(E, e, tys):
+    if e.ty in tys:
+        return True
+    if e.ty in (E.OP, E.FUN):
+        return any(has_node(E, a, tys) for a in e.args)
+    if e.ty in (E.INTEGRAL, E.EVAL_AT, E.SUMMATION):
+        return has_node(E, e.lower, tys) or has_node(E, e.upper, tys) or has_node(E, e.body, tys)
+    if e.ty in (E.DERIV, E.INDEFINITEINTEGRAL, E.DIFFERENTIAL):
+        return has_node(E, e.body, tys)
+    if e.ty == E.LIMIT:
+        return has_node(E, e.lim, tys) or has_node(E, e.body, tys)
+    return False
+
+
+# =====================================================================================================
+# stream: print / parse  (correspondence with pp / ppT / lex / parse; round-trip oracle on the real code)
+# =====================================================================================================
+KEYWORDS = {"D", "pi", "G", "inf", "oo", "INT", "DIFF", "LIM", "SUM", "SKOLEM_CONST", "SKOLEM_FUNC"}
+
+
+def roundtrip_domain(E, e):
+    """Expressions the parser can produce (the domain of the round-trip property): no Const/Const quotient, no unary
+    minus of a positive constant (both are folded by the parser's transformer), integer-valued constants carried as
+    int, and no variable/function spelled like a keyword."""
+    ok = [True]
+
+    def rec(t):
+        if t.ty == E.VAR:
+            if t.name in KEYWORDS or t.name.startswith(("oo", "inf")):
+                ok[0] = False
+        elif t.ty == E.OP:
+            if len(t.args) == 1:
+                a = t.args[0]
+                if a.ty == E.CONST and a.val > 0:
+                    ok[0] = False
+            elif t.op == "/" and t.args[0].ty == E.CONST and t.args[1].ty == E.CONST:
+                ok[0] = False
+            for a in t.args:
+                rec(a)
+        elif t.ty == E.FUN:
+            if len(t.args) > 0 and t.func_name in KEYWORDS:
+                ok[0] = False
+            for a in t.args:
+                rec(a)
+        elif t.ty in (E.INTEGRAL, E.EVAL_AT, E.SUMMATION):
+            rec(t.lower), rec(t.upper), rec(t.body)
+        elif t.ty in (E.DERIV, E.INDEFINITEINTEGRAL, E.DIFFERENTIAL):
+            rec(t.body)
+        elif t.ty == E.LIMIT:
+            rec(t.lim), rec(t.body)
+    rec(e)
+    return ok[0]
+
+
+def impl_parse(I, s):
+    try:
+        with quiet():
+            return "ok", I.parser.parse_expr(s)
+    except Exception as ex:  # noqa
+        return "fail:" + type(ex).__name__, None
+
+
+def mutate_string(rng, s):
+    """Human-style variants of a printed expression: spaces removed/added, a pair of brackets dropped, `-x ^ 2`."""
+    r = rng.random()
+    if r < 0.35:
+        return s.replace(" ", "")
+    if r < 0.5:
+        return s.replace(" ", "  ")
+    if r < 0.8 and "(" in s:
+        i = rng.choice([k for k, c in enumerate(s) if c == "("])
+        depth, j = 0, None
+        for k in range(i, len(s)):
+            if s[k] == "(":
+                depth += 1
+            elif s[k] == ")":
+                depth -= 1
+                if depth == 0:
+                    j = k
+                    break
+        if j is not None and (i == 0 or not (s[i - 1].isalnum() or s[i - 1] == "_")):
+            return s[:i] + s[i + 1:j] + s[j + 1:]
+    return "-" + s
+
+
+def print_parse_stream(ctx, I, n, extra_strings=()):
+    E = I.expr
+    rng = ctx.rng("print")
+    exprs = []
+    for _ in range(n):
+        d = rng.choice([1, 2, 3, 3, 4, 5])
+        exprs.append(gen_expr(E, rng, d, names=("x", "y", "a", "x1", "_t"), fold_safe=(rng.random() < 0.8)))
+    # ---- printing: implementation vs model
+    lines, keep = [], []
+    for e in exprs:
+        sx = to_sexp(E, e)
+        if sx is not None:
+            keep.append((e, sx))
+            lines.append(sexp.dumps(["print", sx]))
+    out = ctx.lean_driver(EXE, lines)
+    nd = 0
+    strings = []
+    for k, (e, sx) in enumerate(keep):
+        s = str(e)
+        strings.append(s)
+        ctx.case(("print", canon(sx)), nontrivial=e.ty not in (E.VAR, E.CONST))
+        ctx.count("print")
+        if out is not None:
+            want = "(str %s T)" % sexp.enc(s)
+            if out[k] != want:
+                nd += 1
+                ctx.coverage["disagreements_checked"] += 1
+                if nd <= 3:
+                    ctx.broken("correspondence:c19:print", "e=%r impl=%s model=%s" % (e, want[:200], out[k][:200]))
+        # ---- property: print -> parse gives the expression back (on the parser's image)
+        roundtrip_check(ctx, I, e)
+    # ---- parsing: implementation vs model on printed strings, human-style variants and recorded strings
+    pstrings = list(strings)
+    for s in strings:
+        if rng.random() < 0.6:
+            pstrings.append(mutate_string(rng, s))
+    pstrings += list(extra_strings)
+    plines, pkeep = [], []
+    for s in pstrings:
+        st, e = impl_parse(I, s)
+        if st == "ok":
+            sx = to_sexp(E, e)
+            if sx is None:
+                ctx.count("parse:outside-model")
+                continue
+            impl = "(ok %s)" % canon(sx)
+        else:
+            impl = "fail"
+        pkeep.append((s, impl))
+        plines.append(sexp.dumps(["parse", sexp.enc(s)]))
+    pout = ctx.lean_driver(EXE, plines)
+    nd = 0
+    for k, (s, impl) in enumerate(pkeep):
+        ctx.case(("parse", s), nontrivial=len(s) > 3)
+        ctx.count("parse:" + ("ok" if impl != "fail" else "fail"))
+        if pout is not None and pout[k] != impl:
+            nd += 1
+            ctx.coverage["disagreements_checked"] += 1
+            if nd <= 3:
+                ctx.broken("correspondence:c19:parse", "s=%r impl=%s model=%s" % (s, impl[:200], pout[k][:200]))
+    if out is None or pout is None:
+        ctx.broken("correspondence:c19:driver", "model driver unavailable")
+    if keep:
+        ctx.sample({"print_input": repr(keep[0][0]), "printed": strings[0]})
+
+
+def roundtrip_check(ctx, I, e, where="generated"):
+    """str(e) parses back to an expression equal to e (Python ==), for e in the parser's image."""
+    E = I.expr
+    if not roundtrip_domain(E, e):
+        ctx.count("roundtrip:outside-domain")
+        return
+    s = str(e)
+    st, e2 = impl_parse(I, s)
+    ctx.count("roundtrip:checked")
+    if st != "ok":
+        ctx.violation("print-parse:" + s, "printed form %r of %r does not parse (%s)" % (s, e, st),
+                      {"kind": "roundtrip", "repr": repr(e), "printed": s, "where": where})
+        return
+    same = same_expr(E, e, e2)
+    if not same:
+        ctx.violation("print-parse:" + s, "printed form %r of %r parses to the different expression %r" % (s, e, e2),
+                      {"kind": "roundtrip", "repr": repr(e), "printed": s, "reparsed": repr(e2), "where": where})
+
+
+def same_expr(E, a, b):
+    """Field-by-field identity of two expressions (constants by value).  Not `==`: holpy's `Integral.__eq__` goes
+    through `subst`, which raises on Differential and drops the direction of a Limit, so `e == e` can be False."""
+    if a.ty != b.ty:
+        return False
+    ty = a.ty
+    if ty in (E.VAR, E.SYMBOL):
+        return a.name == b.name
+    if ty == E.CONST:
+        return frac_of(a.val) == frac_of(b.val)
+    if ty == E.INF:
+        return a.t == b.t
+    if ty == E.OP:
+        return a.op == b.op and len(a.args) == len(b.args) and all(same_expr(E, x, y) for x, y in zip(a.args, b.args))
+    if ty == E.FUN:
+        return a.func_name == b.func_name and len(a.args) == len(b.args) and all(same_expr(E, x, y) for x, y in zip(a.args, b.args))
+    if ty in (E.INTEGRAL, E.EVAL_AT):
+        return str(a.var) == str(b.var) and same_expr(E, a.lower, b.lower) and same_expr(E, a.upper, b.upper) and same_expr(E, a.body, b.body)
+    if ty == E.SUMMATION:
+        return a.index_var == b.index_var and same_expr(E, a.lower, b.lower) and same_expr(E, a.upper, b.upper) and same_expr(E, a.body, b.body)
+    if ty == E.DERIV:
+        return str(a.var) == str(b.var) and same_expr(E, a.body, b.body)
+    if ty == E.DIFFERENTIAL:
+        return same_expr(E, a.body, b.body)
+    if ty == E.INDEFINITEINTEGRAL:
+        return a.var == b.var and tuple(a.skolem_args) == tuple(b.skolem_args) and same_expr(E, a.body, b.body)
+    if ty == E.LIMIT:
+        return a.var == b.var and a.drt == b.drt and same_expr(E, a.lim, b.lim) and same_expr(E, a.body, b.body)
+    if ty == E.SKOLEMFUNC:
+        return a.name == b.name and len(a.dependent_vars) == len(b.dependent_vars) and \
+            all(same_expr(E, x, y) for x, y in zip(a.dependent_vars, b.dependent_vars))
+    return False
+
+
+def example_strings(repo):
+    """Every expression string occurring in the example files (all formats)."""
+    ex = os.path.join(repo, "integral", "examples")
+    keys = {"res", "start", "goal", "eq", "expr", "new_expr", "old_expr", "u", "v", "var_subst", "cond", "lhs", "c", "a",
+            "source", "target", "solve_for", "lim", "problem", "text", "f", "g", "rhs", "denom", "parts_u", "parts_v"}
+    out = []
+
+    def walk(x):
+        if isinstance(x, dict):
+            for k, v in x.items():
+                if k in keys and isinstance(v, str) and v:
+                    out.append(v)
+                else:
+                    walk(v)
+        elif isinstance(x, list):
+            for v in x:
+                walk(v)
+    for p in sorted(glob.glob(os.path.join(ex, "*.json")) + glob.glob(os.path.join(ex, "*", "*.json"))):
+        try:
+            with open(p, encoding="utf-8") as f:
+                walk(json.load(f))
+        except Exception:  # noqa
+            pass
+    return list(dict.fromkeys(out))
+
+
+def example_roundtrip(ctx, I, limit=None):
+    """print -> parse on every expression of the example files (and all their subexpressions' top level)."""
+    strs = example_strings(ctx.repo)
+    rng = ctx.rng("example-strings")
+    if limit is not None and len(strs) > limit:
+        strs = rng.sample(strs, limit)
+    n = 0
+    for s in strs:
+        st, e = impl_parse(I, s)
+        if st != "ok":
+            ctx.count("example-strings:unparsable")
+            continue
+        n += 1
+        ctx.case(("example-expr", s), nontrivial=True)
+        roundtrip_check(ctx, I, e, where="examples")
+    ctx.count("example-strings", n)
+    return strs
+
+
+# =====================================================================================================
+# stream: interval arithmetic (exact, rational endpoints)
+# =====================================================================================================
+def gen_bound(rng, side):
+    r = rng.random()
+    if r < 0.12:
+        return "-oo" if side == "lo" else "oo"
+    return Fraction(rng.choice([-3, -2, -1, -1, 0, 0, 0, 1, 1, 2, 3, 5]), rng.choice([1, 1, 1, 2, 3]))
+
+
+def gen_ival(rng):
+    lo, hi = gen_bound(rng, "lo"), gen_bound(rng, "hi")
+    if isinstance(lo, Fraction) and isinstance(hi, Fraction) and lo > hi and rng.random() < 0.9:
+        lo, hi = hi, lo
+    return (lo, hi, rng.random() < 0.4, rng.random() < 0.4)
+
+
+def mk_interval(I, iv):
+    E = I.expr
+    lo, hi, lo_open, hi_open = iv
+
+    def b(x):
+        if x == "-oo":
+            return E.NEG_INF
+        if x == "oo":
+            return E.POS_INF
+        return E.Const(x if x.denominator != 1 else int(x))
+    return I.interval.Interval(b(lo), b(hi), lo_open, hi_open)
+
+
+def s_bound(x):
+    if x in ("-oo", "oo"):
+        return x
+    return [x.numerator, x.denominator]
+
+
+def s_ival(iv):
+    return [s_bound(iv[0]), s_bound(iv[1]), bool(iv[2]), bool(iv[3])]
+
+
+def read_interval(I, r):
+    """Interval object -> (lo, hi, lopen, ropen) with exact endpoints."""
+    E = I.expr
+
+    def b(x):
+        if x == E.NEG_INF:
+            return "-oo"
+        if x == E.POS_INF:
+            return "oo"
+        v = E.eval_expr(x)
+        if isinstance(v, float):
+            if v == float("inf"):
+                return "oo"
+            if v == float("-inf"):
+                return "-oo"
+            raise ValueError("float endpoint")
+        return Fraction(v)
+    return (b(r.start), b(r.end), bool(r.left_open), bool(r.right_open))
+
+
+def ival_apply(I, op, a, b, n):
+    A = mk_interval(I, a)
+    try:
+        with quiet():
+            if op == "iadd":
+                r = A + mk_interval(I, b)
+            elif op == "isub":
+                r = A - mk_interval(I, b)
+            elif op == "ineg":
+                r = -A
+            elif op == "imul":
+                r = A * mk_interval(I, b)
+            elif op == "iinv":
+                r = A.inverse()
+            elif op == "idiv":
+                r = A / mk_interval(I, b)
+            else:
+                r = A ** I.interval.Interval.point(I.expr.Const(n))
+            return "ok", read_interval(I, r)
+    except Exception as ex:  # noqa
+        return "raises:" + type(ex).__name__, None
+
+
+def in_ival(iv, x):
+    lo, hi, lo_open, hi_open = iv
+    if lo == "oo" or hi == "-oo":
+        return False
+    if lo != "-oo" and (x < lo or (lo_open and x == lo)):
+        return False
+    if hi != "oo" and (x > hi or (hi_open and x == hi)):
+        return False
+    return True
+
+
+def points_of(rng, iv):
+    """Rational sample points of an interval, attained endpoints first."""
+    lo, hi, lo_open, hi_open = iv
+    pts = []
+    if lo not in ("-oo", "oo") and not lo_open:
+        pts.append(lo)
+    if hi not in ("-oo", "oo") and not hi_open:
+        pts.append(hi)
+    a = lo if lo not in ("-oo", "oo") else (hi - 7 if hi not in ("-oo", "oo") else Fraction(-7))
+    b = hi if hi not in ("-oo", "oo") else (a + 9)
+    if a < b:
+        for t in (Fraction(1, 1000), Fraction(1, 3), Fraction(1, 2), Fraction(4, 5), Fraction(999, 1000)):
+            pts.append(a + (b - a) * t)
+        pts.append(a + (b - a) * Fraction(rng.randint(1, 96), 97))
+        if a < 0 < b:
+            pts.append(Fraction(0))
+            pts.append(Fraction(1, 1000))
+            pts.append(Fraction(-1, 1000))
+    return [p for p in dict.fromkeys(pts) if in_ival(iv, p)]
+
+
+def interval_stream(ctx, I, n):
+    rng = ctx.rng("interval")
+    ops = ["iadd", "isub", "ineg", "imul", "imul", "imul", "iinv", "idiv", "idiv", "ipow", "ipow"]
+    corpus = [("imul", ((Fraction(-1), Fraction(1), False, False)), ((Fraction(-1), Fraction(1), False, True)), 0),
+              ("imul", ((Fraction(0), Fraction(1), False, False)), ((Fraction(0), Fraction(1), True, True)), 0),
+              ("imul", ((Fraction(0), "oo", False, True)), ((Fraction(1), Fraction(2), True, True)), 0),
+              ("iinv", ((Fraction(-1), Fraction(2), False, False)), None, 0),
+              ("idiv", ((Fraction(1), Fraction(1), False, False)), ((Fraction(-1), Fraction(2), False, False)), 0),
+              ("ipow", ((Fraction(-2), Fraction(1), False, False)), None, 4),
+              ("ipow", ((Fraction(-2), Fraction(1), True, False)), None, 6),
+              ("ipow", (("-oo", Fraction(-1), True, True)), None, 4)]
+    cases = list(corpus)
+    for _ in range(n):
+        op = rng.choice(ops)
+        cases.append((op, gen_ival(rng), gen_ival(rng) if op in ("iadd", "isub", "imul", "idiv") else None, rng.choice([0, 1, 2, 2, 3, 4, 5, 6])))
+    lines = []
+    for op, a, b, k in cases:
+        if op in ("iadd", "isub", "imul", "idiv"):
+            lines.append(sexp.dumps([op, s_ival(a), s_ival(b)]))
+        elif op == "ipow":
+            lines.append(sexp.dumps([op, s_ival(a), k]))
+        else:
+            lines.append(sexp.dumps([op, s_ival(a)]))
+    out = ctx.lean_driver(EXE, lines)
+    nd = 0
+    for idx, (op, a, b, k) in enumerate(cases):
+        st, r = ival_apply(I, op, a, b, k)
+        ctx.case(("ival", op, a, b, k), nontrivial=True)
+        ctx.count("interval:%s:%s" % (op, st.split(":")[0]))
+        impl = canon(s_ival(r)) if st == "ok" else "raises"
+        if out is not None and out[idx] != impl:
+            nd += 1
+            ctx.coverage["disagreements_checked"] += 1
+            if nd <= 3:
+                ctx.broken("correspondence:c19:interval", "%s %s %s %s impl=%s (%s) model=%s" % (op, a, b, k, impl, st, out[idx]))
+        # ---- property oracle: sampled points (exact rational arithmetic)
+        if st != "ok":
+            continue
+        xs = points_of(rng, a)
+        ys = points_of(rng, b) if b is not None else [None]
+        bad = None
+        for x in xs:
+            for y in ys:
+                try:
+                    if op == "iadd":
+                        v = x + y
+                    elif op == "isub":
+                        v = x - y
+                    elif op == "ineg":
+                        v = -x
+                    elif op == "imul":
+                        v = x * y
+                    elif op == "iinv":
+                        if x == 0:
+                            continue
+                        v = 1 / x
+                    elif op == "idiv":
+                        if y == 0:
+                            continue
+                        v = x / y
+                    else:
+                        v = x ** k
+                except ZeroDivisionError:
+                    continue
+                if not in_ival(r, v):
+                    bad = (x, y, v)
+                    break
+            if bad:
+                break
+        if bad:
+            ctx.violation("interval:%s:%s:%s:%s" % (op, show_ival(a), show_ival(b) if b else "", k if op == "ipow" else ""),
+                          "interval %s of %s%s = %s does not contain %s obtained from x=%s%s" % (
+                              op, show_ival(a), (" and " + show_ival(b)) if b else (" ^ %d" % k if op == "ipow" else ""), show_ival(r), bad[2], bad[0],
+                              (", y=%s" % bad[1]) if bad[1] is not None else ""),
+                          {"kind": "interval", "op": op, "a": ser_ival(a), "b": ser_ival(b) if b else None, "n": k})
+    if out is None:
+        ctx.broken("correspondence:c19:driver", "model driver unavailable")
+    ctx.sample({"interval_case": [cases[len(corpus)][0], show_ival(cases[len(corpus)][1])]} if len(cases) > len(corpus) else {})
+
+
+def show_ival(iv):
+    return ("(" if iv[2] else "[") + str(iv[0]) + "," + str(iv[1]) + (")" if iv[3] else "]")
+
+
+def ser_ival(iv):
+    return [str(iv[0]), str(iv[1]), bool(iv[2]), bool(iv[3])]
+
+
+def deser_ival(x):
+    def b(s):
+        return s if s in ("-oo", "oo") else Fraction(s)
+    return (b(x[0]), b(x[1]), bool(x[2]), bool(x[3]))
+
+
+def gen_rich(E, rng, depth, names=("x", "y", "a")):
+    """Expressions over *all* node kinds the calculator prints (for the round-trip oracle on the real code)."""
+    def rec(d):
+        if d <= 0 or rng.random() < 0.15:
+            r = rng.random()
+            if r < 0.45:
+                return E.Var(rng.choice(names))
+            if r < 0.85:
+                return gen_const(E, rng)
+            if r < 0.93:
+                return E.Fun(rng.choice(["pi", "G"]))
+            return E.SkolemFunc("C", tuple(E.Var(n) for n in rng.sample(list(names), rng.randint(0, 2))))
+        r = rng.random()
+        if r < 0.42:
+            op = rng.choice(["+", "-", "*", "/", "^"])
+            a, b = rec(d - 1), rec(d - 1)
+            if op == "/" and a.ty == E.CONST and b.ty == E.CONST:
+                a = E.Var(rng.choice(names))
+            return E.Op(op, a, b)
+        if r < 0.5:
+            a = rec(d - 1)
+            if (a.ty == E.CONST and a.val > 0) or a.ty == E.INF:
+                a = E.Var(rng.choice(names))
+            return E.Op("-", a)
+        if r < 0.66:
+            if rng.random() < 0.15:
+                return E.Fun(rng.choice(["binom", "B", "h"]), rec(d - 1), rec(d - 1))
+            return E.Fun(rng.choice(FUNS1 + ["factorial", "Gamma", "f"]), rec(d - 1))
+        t = rng.choice(["t", "u", "k"])
+        body = substvar(E, rng, rec(d - 1), names, t)
+        k = rng.random()
+
+        def bound(lo):
+            q = rng.random()
+            if q < 0.15:
+                return E.NEG_INF if lo else E.POS_INF
+            return rec(d - 2)
+        if k < 0.3:
+            return E.Integral(t, bound(True), bound(False), body)
+        if k < 0.42:
+            return E.EvalAt(t, bound(True), bound(False), body)
+        if k < 0.52:
+            return E.Deriv(t, body)
+        if k < 0.68:
+            lim = rng.choice([E.POS_INF, E.NEG_INF, E.Const(0), rec(d - 2)])
+            drt = None if lim.ty == E.INF else rng.choice([None, "+", "-"])
+            return E.Limit(t, lim, body, drt)
+        if k < 0.82:
+            return E.Summation(t, rec(d - 2), bound(False), body)
+        if k < 0.95:
+            return E.IndefiniteIntegral(t, body, tuple(rng.sample(list(names), rng.randint(0, 2))))
+        return E.Differential(body)
+    return rec(depth)
+
+
+def rich_roundtrip(ctx, I, n):
+    E = I.expr
+    rng = ctx.rng("rich")
+    for _ in range(n):
+        e = gen_rich(E, rng, rng.choice([1, 2, 3, 3, 4]))
+        if rng.random() < 0.1:
+            e = E.Op(rng.choice(["=", "<", "<=", ">", ">=", "!="]), e, gen_rich(E, rng, 2))
+        ctx.case(("rich", str(e)), nontrivial=True)
+        ctx.count("rich-roundtrip")
+        roundtrip_check(ctx, I, e, where="generated-rich")
+
+
+# =====================================================================================================
+# stream: normalize  (value preserving at random admissible points; idempotent)
+# =====================================================================================================
+def impl_normalize(I, e, conds):
+    try:
+        with quiet():
+            with time_limit(20):
+                return "ok", I.poly.normalize(e, conds)
+    except Timeout:
+        return "timeout", None
+    except Exception as ex:  # noqa
+        return "raises:" + type(ex).__name__, None
+
+
+def normalize_stream(ctx, I, n):
+    E = I.expr
+    rng = ctx.rng("normalize")
+    P = I.parser.parse_expr
+    corpus = ["sqrt(x^2)", "(x^2)^(1/2)", "atan(tan(x))", "sin(asin(x))", "log(x^2)", "exp(log(x))", "log(exp(x))", "x^2/x", "(x+1)^2/(x+1)",
+              "sqrt(x)*sqrt(x)", "x^(1/2)*x^(1/2)", "(x*y)^(1/2)", "sqrt(x*y)", "(x^3)^(1/3)", "abs(x)^2", "x/x", "0^x", "x^0", "1/(1/x)",
+              "(-x)^2", "(-x)^(1/2)", "sqrt(-x)", "log(1/x)", "exp(x)^2", "exp(x+y)", "cos(-x)", "sin(pi/2 - x)", "tan(x)*cot(x)",
+              "(x^(1/2))^2", "((x-1)^2)^(1/2)", "x^a*x^b", "(x^a)^b", "2^x*2^y", "INT t:[1,0]. t*x", "INT t:[0,1]. (t^2)^(1/2)*x"]
+    cases = [(P(s), []) for s in corpus]
+    for _ in range(n):
+        e = gen_expr(E, rng, rng.choice([2, 3, 3, 4]), names=("x", "x", "y"), binders=(rng.random() < 0.25), extra_funs=())
+        conds = []
+        if rng.random() < 0.4:
+            conds.append(P("x > 0"))
+        if rng.random() < 0.2:
+            conds.append(P("y > 0"))
+        cases.append((e, conds))
+    for e, conds in cases:
+        normalize_check(ctx, I, e, conds, rng)
+    ctx.sample({"normalize_input": str(cases[len(corpus)][0])} if len(cases) > len(corpus) else {})
+
+
+def normalize_check(ctx, I, e, conds, rng):
+    E = I.expr
+    C = I.conditions.Conditions(conds)
+    ctx.case(("normalize", str(e), tuple(str(c) for c in conds)), nontrivial=e.ty not in (E.VAR, E.CONST))
+    st, n1 = impl_normalize(I, e, C)
+    ctx.count("normalize:" + st.split(":")[0])
+    if st != "ok":
+        return
+    st2, n2 = impl_normalize(I, n1, C)
+    if st2 == "ok" and not same_expr(E, n1, n2) and not (n1 == n2):
+        ctx.violation("normalize-idempotent:" + str(e), "normalize is not idempotent on %s: %s then %s" % (e, n1, n2),
+                      {"kind": "normalize", "expr": str(e), "conds": [str(c) for c in conds], "what": "idempotent"})
+    names = e.get_vars() | n1.get_vars()
+    good = 0
+    for _ in range(8):
+        env = sample_env(E, rng, names, conds, set())
+        if env is None:
+            break
+        try:
+            a = two_prec(E, e, env, limit_s=3)
+            b = two_prec(E, n1, env, limit_s=3)
+        except Unrel:
+            continue
+        good += 1
+        if not close(a, b):
+            ctx.violation("normalize-value:" + str(e) + (" | " + ", ".join(str(c) for c in conds) if conds else ""),
+                          "normalize(%s) = %s under [%s]: value %s becomes %s at %s" % (e, n1, ", ".join(str(c) for c in conds), a, b, env),
+                          {"kind": "normalize", "expr": str(e), "conds": [str(c) for c in conds], "what": "value", "env": env})
+            return
+        if good >= 2:
+            break
+    ctx.count("normalize-oracle:checked" if good else "normalize-oracle:no-admissible-point")
